@@ -27,6 +27,7 @@ mod cc;
 mod sentpk;
 mod dgram;
 mod mtud;
+mod streams;
 mod snapshot;
 mod cindex;
 mod wire;
@@ -111,6 +112,7 @@ fn registry(name: &str) -> Option<Ctor> {
         "cindex" => || Box::new(cindex::CindexC::new()),
         "dgram" => || Box::new(dgram::DgramC::new()),
         "mtud" => || Box::new(mtud::MtudC::new()),
+        "streams" => || Box::new(streams::StreamsC::new()),
         _ => return None,
     })
 }
